@@ -290,6 +290,7 @@ class Env(S.Context):
             out[rn] = entries[0][1]
         # the renames of a class reached through paths with different mappers depend on the path: not modelled per class
         self.path_dependent = {rn for rn, entries in cand.items() if len({tuple(e[1]) for e in entries}) > 1}
+        self.rename_cands = {rn: [e[1] for e in entries] for rn, entries in cand.items()}
         return out
 
     def wrapper_form(self, name):
@@ -964,16 +965,26 @@ def rep_none_required(doc, ctx):
 
 
 def rep_nested_mapper(doc, ctx):
+    """The serializer applies the parent's mapper to nested class instances; the definition has the class's own keys.
+    A class reached through several paths (with / without a '<field>._mapper' entry) is serialized differently on each
+    path: the repaired definition then admits every form the paths produce."""
     env = ctx["env"]
-    for name, d in doc.get("definitions", {}).items():
+    env.effective_renames()
+    for name, d in list(doc.get("definitions", {}).items()):
         if name not in env.classes or name not in ctx["eff"] or env.wrapper_form(name) or "properties" not in d:
             continue
-        own, eff = dict(env.renames(name)), dict(ctx["eff"][name])
-        ren = {own.get(f, f): eff.get(f, f) for f in env.resolved(name)["field_names"]}
-        if any(k != v for k, v in ren.items()):
-            d["properties"] = {ren.get(k, k): v for k, v in d["properties"].items()}
+        own = dict(env.renames(name))
+        forms = []
+        for eff in [dict(r) for r in env.rename_cands.get(name, [ctx["eff"][name]])]:
+            ren = {own.get(f, f): eff.get(f, f) for f in env.resolved(name)["field_names"]}
+            v = dict(d)
+            v["properties"] = {ren.get(k, k): x for k, x in d["properties"].items()}
             if isinstance(d.get("required"), list):
-                d["required"] = [ren.get(k, k) for k in d["required"]]
+                v["required"] = [ren.get(k, k) for k in d["required"]]
+            if v not in forms:
+                forms.append(v)
+        if forms and forms != [d]:
+            doc["definitions"][name] = forms[0] if len(forms) == 1 else {"anyOf": forms}
             ctx["changed"] = True
 
 
@@ -1739,10 +1750,42 @@ def field_kind(f):
     return t
 
 
+def extras_nested_mapper_repair(ns, doc):
+    """Counterfactual for the known defect 'the parent's mapper is applied by the serializer to instances of nested
+    CLASSES, whose definitions are exported with their own mapper only': rename the keys of every definition the way
+    the parent's aggregated '<field>._mapper' entry does.  -> repaired copy, or None when nothing changes."""
+    from typedpy.serialization.mappers import aggregate_serialization_mappers
+    top, mapper = ns["TOP"], ns["MAPPER"]
+    agg = aggregate_serialization_mappers(top, mapper) or {}
+    out = copy.deepcopy(doc)
+    changed = False
+    for fname in top.get_all_fields_by_name():
+        sub = agg.get(fname + "._mapper")
+        if not isinstance(sub, dict):
+            continue
+        for cname, d in out.get("definitions", {}).items():
+            cls = ns.get(cname)
+            if not (isinstance(cls, type) and isinstance(d, dict) and isinstance(d.get("properties"), dict)):
+                continue
+            own = aggregate_serialization_mappers(cls, None) or {}
+            ren = {}
+            for f in cls.get_all_fields_by_name():
+                a, b = own.get(f, f), sub.get(f, f)
+                if isinstance(a, str) and isinstance(b, str) and a != b:
+                    ren[a] = b
+            if ren:
+                d["properties"] = {ren.get(k, k): v for k, v in d["properties"].items()}
+                if isinstance(d.get("required"), list):
+                    d["required"] = [ren.get(k, k) for k in d["required"]]
+                changed = True
+    return out if changed else None
+
+
 def run_extras(rep):
     """Constructs of the quantifier outside the Coq model (harness/c08extras.py): observed-behaviour clauses only."""
     jobs, meta = [], []
-    for name, src in XT.CASES:
+    nss = {}
+    for name, src in XT.CASES + XT.matrix_cases():
         base = {"kind": "extras", "case": name, "extras_src": src, "python": XT.PRELUDE + src}
         try:
             ns, out, sers = XT.run_case(src)
@@ -1750,7 +1793,8 @@ def run_extras(rep):
             rep.finding("C08/extras/%s/case-raises/%s" % (name, E.exn_name(ex)),
                         "the classes / valid instances of case %s raise: %s" % (name, ex), base)
             continue
-        rep.count("extras", 1, ("extras", name, out[0]))
+        rep.count("extras:mapper-matrix" if name.startswith("mapper-matrix/") else "extras", 1, ("extras", name, out[0]))
+        nss[name] = ns
         if out[0] != "ok":
             rep.finding("C08/extras/%s/export-raises/%s" % (name, out[1]), "structure_to_schema raises %s" % out[1], base)
             continue
@@ -1773,6 +1817,21 @@ def run_extras(rep):
         rep.broken("oracle:python3-vt(extras)", str(ex))
         return
     n = 0
+    # failures a known counterfactual explains
+    rjobs, rkeys = [], []
+    for (name, base, ok), job, res in zip(meta, jobs, results):
+        if not (res["schema_error"] or res["refs_missing"]) and any(v is False for v in res["verdicts"]):
+            fixed = extras_nested_mapper_repair(nss[name], job["doc"])
+            if fixed is not None:
+                rjobs.append({"doc": fixed, "instances": job["instances"]})
+                rkeys.append(name)
+    explained = {}
+    if rjobs:
+        try:
+            for name, r in zip(rkeys, run_vt(rjobs)):
+                explained[name] = r["verdicts"]
+        except Exception as ex:  # noqa
+            rep.broken("oracle:python3-vt(extras classification)", str(ex))
     for (name, base, ok), res in zip(meta, results):
         if res["schema_error"] or res["refs_missing"]:
             what = res["schema_error"]["message"] if res["schema_error"] else "unresolved " + ", ".join(res["refs_missing"])
@@ -1782,11 +1841,15 @@ def run_extras(rep):
         for (i, j), v, err in zip(ok, res["verdicts"], res["errors"]):
             n += 1
             if v is False:
-                rep.finding("C08/extras/%s/complete/%s" % (name, err["validator"]),
+                pos = [x for x, _ in ok].index(i)
+                why = "mapper-propagates-into-nested-class" if (name in explained and explained[name][pos] is True) \
+                    else err["validator"]
+                rep.finding("C08/extras/%s/complete/%s" % (name, why),
                             "a valid instance of case %s, serialized, is rejected by the exported schema: %s" % (name, err["message"]),
                             dict(base, instance_index=i, serialized=j, error=err))
-    rep.obligation("oracle:extras(StructureReference, inheritance, ImmutableStructure, mapper argument)", True,
-                   "%d cases, %d serialized instances validated" % (len(meta), n))
+    rep.obligation("oracle:extras(StructureReference, inheritance, ImmutableStructure, mapper argument; mapper matrix)", True,
+                   "%d cases (incl. mapper kind x where x holder renamed x nested construct x nested keys renamed), "
+                   "%d serialized instances validated" % (len(meta), n))
 
 
 def run(rep, tier):
